@@ -89,12 +89,15 @@ def run(ck):
     r = Rng(ck.seed).fork("C02")
     n = 3000 if quick else 100000
     cases = [gen_stream(r) for _ in range(n)]
-    def script(cases_idx):
+    def script(cases_idx, impl=False):
         L = ["start 1 - 0"]
         for i in cases_idx:
             items, chunks = cases[i]
             L += ["case %d" % i, "rx fe", "discard q"]
-            for c in chunks: L.append("rx " + hexs(c))
+            for ci, c in enumerate(chunks):
+                L.append("rx " + hexs(c))
+                # every chunking of the stream across read polls: now and then a long silence (hundreds of empty polls) between two chunks
+                if impl and len(chunks) > 1 and (i * 31 + ci * 7) % 23 == 0: L.append("idle %d" % [450, 900, 2500][(i + ci) % 3])
             L += ["drain q"]
         return "\n".join(L) + "\n"
     allidx = list(range(n))
@@ -105,7 +108,7 @@ def run(ck):
     dis = 0; orc = 0; evals = 0; dist = {}; nontrivial = 0; samples = []
     for s0 in range(0, len(safe), 1500):
         part = safe[s0:s0 + 1500]
-        rc, out, err = vlib.run_driver(exe, script(part), timeout=900)
+        rc, out, err = vlib.run_driver(exe, script(part, impl=True), timeout=900)
         impl = vlib.split_cases(out)
         for i in part:
             evals += 1
@@ -122,7 +125,7 @@ def run(ck):
                 got = [l[2:] for l in il if l.startswith("q ") and l != "q none"]
                 if got != [hexs(m) for m in exp]:
                     orc += 1
-                    ck.violation("delivery-mismatch", {"property": "C02", "items": items, "chunks": [hexs(c) for c in chunks], "expected": [hexs(m) for m in exp], "delivered": got,
+                    ck.violation("delivery-mismatch", {"property": "C02", "items": items, "script": script([i], impl=True).split("\n")[:-1], "chunks": [hexs(c) for c in chunks], "expected": [hexs(m) for m in exp], "delivered": got,
                                  "reason": "messages delivered by the implementation differ from the good packets of the stream (reference decoder)"})
             if il != ml:
                 dis += 1
